@@ -7,7 +7,6 @@
 package gcsizes
 
 import (
-	"go/build"
 	"go/types"
 )
 
@@ -20,8 +19,8 @@ type Sizes struct {
 func ForArch(arch string) *Sizes {
 	wordSize := int64(8)
 	maxAlign := int64(8)
-	switch build.Default.GOARCH {
-	case "386", "arm":
+	switch arch {
+	case "386", "arm", "mips", "mipsle":
 		wordSize, maxAlign = 4, 4
 	case "amd64p32":
 		wordSize = 4
